@@ -445,3 +445,14 @@ func trunc(s string, n int) string {
 	}
 	return s[:n] + "..."
 }
+
+// DropViolations discards the violations recorded so far (used when a child
+// finds out afterwards that its precondition - e.g. stable membership - did
+// not hold) and returns how many were dropped.
+func (r *Report) DropViolations() int {
+	r.mu.Lock()
+	defer r.mu.Unlock()
+	n := len(r.violations)
+	r.violations = nil
+	return n
+}
